@@ -189,16 +189,26 @@ def work_emit(bins, seed, n):
                     b = {}
                 if not _same(a, b):
                     bad.append(("field-not-preserved", "field %s: sent %r, emitted %r" % (k, b, a), case))
-            s0.pop("precedence_order", None)
+            po_sent = s0.pop("precedence_order", None)
             sch = dict(schema)
-            sch.pop("precedence_order", None)
+            po_got = sch.pop("precedence_order", None)
+            if po_sent is not None and list(po_sent) != list(po_got or []):
+                # an explicit precedence order (also an empty one) is part of the object
+                bad.append(("schema-not-preserved", "precedence_order sent %r, emitted %r" % (po_sent, po_got), case))
             if sch != s0:
                 bad.append(("schema-not-preserved", "schema sent %s, emitted %s" % (ron.schema_to_ron(s0), ron.schema_to_ron(sch)), case))
         # (3) piped rendering equals direct rendering
         direct_base = [a for a in argv]
         i = direct_base.index("--output-format")
-        for how in ("semver", "pep440", "template"):
-            if how == "template":
+        for how in ("semver", "pep440", "template", "bump"):
+            if how == "bump":
+                # the same operation on the object and on the original input: the precedence order (what a bump resets) travels with the object
+                op = rng.choice([["--bump-minor"], ["--bump-major"], ["--bump-patch"], ["--bump-epoch"], ["--bump-post"], ["--bump-pre-release-num"]])
+                if not (stdin is not None and argv[:3] == ["version", "--source", "stdin"] and len(argv) == 5):
+                    continue      # only where the emitted object *is* the input object: a further bump on top of other flags is a different request
+                d_argv = direct_base[:i] + ["--output-format", "semver"] + direct_base[i + 2:] + op
+                p_argv = ["version", "--source", "stdin", "--output-format", "semver"] + op
+            elif how == "template":
                 t = rng.choice(TEMPLATES)
                 d_argv = direct_base[:i] + direct_base[i + 2:] + ["--output-template", t]
                 p_argv = ["version", "--source", "stdin", "--output-template", t]
@@ -271,6 +281,10 @@ def structural_mutants(rng):
         ("empty timestamp pattern", S("var(Major)", "", 'var(ts(""))')),
         ("timestamp pattern in the wrong case", S("var(Major)", "", 'var(ts("yyyy"))')),
         ("timestamp pattern with a foreign letter", S("var(Major)", "", 'var(ts("YYYYx"))')),
+        ("timestamp pattern with a percent sign inside", S("var(Major)", "", 'var(ts("YYYY%"))')),
+        ("timestamp pattern ending in percent", S("var(Major)", 'var(ts("Q%"))', "")),
+        ("timestamp pattern 100%", S('var(Major), var(ts("100%"))', "", "")),
+        ("timestamp pattern with a space before percent", S("var(Major)", "", 'var(ts(" %Y"))')),
         ("unknown var name", S("var(Majr)", "", "")),
         ("unknown component kind", S("vars(Major)", "", "")),
         ("wrong type: string for uint", S('uint("5")', "", "")),
@@ -294,7 +308,7 @@ def textual_mutant(text, rng):
     if k < 0.25:
         return b[:i] + b[i + 1:]
     if k < 0.45:
-        return b[:i] + rng.choice("()[]{},:\"\\'0a-_ ~#\n") + b[i:]
+        return b[:i] + rng.choice("()[]{},:\"\\'0a-_ ~#\n%Q") + b[i:]
     if k < 0.65:
         return b[:i] + rng.choice("()[]{},:\"9Zx ") + b[i + 1:]
     if k < 0.8:
